@@ -163,6 +163,45 @@ def merge_stats(acc, st):
             acc.setdefault(k, v)
 
 
+def _standalone_child(check, scn, target, conn):
+    try:
+        res = check.run(scn)
+        conn.send(any(sig_of(x) == target for x in res['violations']))
+    except Exception:       # noqa: BLE001
+        conn.send(False)
+    finally:
+        conn.close()
+
+
+def _first_standalone(check, cands, width=16, timeout=300):
+    """First (result, violation) of cands whose scenario shows the violation when executed alone in a clean fork."""
+    ctx = multiprocessing.get_context('fork')
+    for i in range(0, len(cands), width):
+        procs = []
+        for r2, v2 in cands[i:i + width]:
+            a, b = ctx.Pipe(duplex=False)
+            pr = ctx.Process(target=_standalone_child, args=(check, r2['scenario'], sig_of(v2), b))
+            pr.start()
+            b.close()
+            procs.append((pr, a, r2, v2))
+        hit = None
+        for pr, a, r2, v2 in procs:
+            ok = False
+            try:
+                if a.poll(timeout):
+                    ok = bool(a.recv())
+            except (EOFError, OSError):
+                ok = False
+            pr.join(5)
+            if pr.is_alive():
+                pr.terminate()
+            if ok and hit is None:
+                hit = (r2, v2)
+        if hit is not None:
+            return hit
+    return None
+
+
 # ---------------------------------------------------------------------------
 # replay files
 # ---------------------------------------------------------------------------
@@ -333,6 +372,24 @@ def run_check(check, tier='quick', seed0=0, workers=None, runs=None, wall_cap=No
             continue
         path = write_replay(check, scn, v, dg, seed)
         ok, out = verify_replay_fresh(pid, path)
+        if not ok:
+            # the run that showed it may have depended on what earlier runs left behind in the worker process (state
+            # that the library keeps at module level): look for an occurrence that stands on its own, each candidate
+            # executed in a process forked from this one, which has executed no scenario
+            key = sig_of(v) + (v.get('trigger'),)
+            cands = [(r2, v2) for r2, v2 in unknown if 'scenario' in r2 and sig_of(v2) + (v2.get('trigger'),) == key][:96]
+            found = _first_standalone(check, cands)
+            if found is not None:
+                r2, v2 = found
+                try:
+                    os.remove(path)
+                except OSError:
+                    pass
+                path = write_replay(check, r2['scenario'], v2, r2['digest'], r2['seed'])
+                ok, out = verify_replay_fresh(pid, path)
+                if ok:
+                    seed, scn, v, nruns, dg = r2['seed'], r2['scenario'], v2, 0, r2['digest']
+                    print(f'[{pid}] note: the first occurrence of this signature did not replay on its own (it depended on state left in the worker process by earlier runs); reporting an occurrence that does')
         if not ok:
             harness_errors.append(f'violation {sig_of(v)} (seed {seed}) did not replay in a fresh interpreter: {out[-600:]}')
             continue
